@@ -1,1 +1,45 @@
-From QH Require Import Proxy.
+(* Properties_C12.v — C12: the proxy forwards the client's request upstream unaltered in meaning. *)
+From Coq Require Import String List Ascii ZArith Permutation.
+From QH Require Import Bytes Value HeaderMap Parser ParserProofs SocketM Router RouterProofs Proxy ProxyProofs.
+Import ListNotations.
+
+(* exactly the client's body bytes in order, whether they arrived before or after the upstream
+   connection was established - for EVERY interleaving of body segments with that moment *)
+Theorem C12_body_in_order : forall head ops,
+  let s := up_run head ops in
+  (In UConnected ops -> u_sent s = head ++ udata ops) /\
+  (~ In UConnected ops -> u_sent s = [] /\ u_pending s = udata ops).
+Proof. exact body_in_order. Qed.
+Print Assumptions C12_body_in_order.
+
+(* the request target cannot introduce extra request or header lines, whatever the routed path *)
+Theorem C12_upstream_target_clean : forall routed raw, forallb plain (upstream_target routed raw) = true.
+Proof. exact upstream_target_clean. Qed.
+Print Assumptions C12_upstream_target_clean.
+
+(* ... and its path part denotes the same resource: it decodes to "/" ++ routed path *)
+Theorem C12_upstream_path_same_resource : forall routed,
+  pct_decode ([SL] ++ to_pct [SL] routed) = [SL] ++ routed.
+Proof. exact upstream_path_same_resource. Qed.
+Print Assumptions C12_upstream_path_same_resource.
+
+(* every client header with its value; one X-Forwarded-For; X-Real-IP unless already present *)
+Theorem C12_headers_preserved : forall h peer,
+  let xff := (B "X-Forwarded-For", join (B ", ") (rev (hm_values (B "X-Forwarded-For") h) ++ [peer])) in
+  Permutation (upstream_headers h peer)
+              ((if hm_contains (B "X-Real-IP") h then [] else [(B "X-Real-IP", peer)]) ++ xff :: filter not_xff h).
+Proof. exact headers_preserved. Qed.
+Print Assumptions C12_headers_preserved.
+
+Theorem C12_xff_ends_with_peer : forall h peer,
+  exists pre, join (B ", ") (rev (hm_values (B "X-Forwarded-For") h) ++ [peer]) = pre ++ peer.
+Proof. exact xff_ends_with_peer. Qed.
+Print Assumptions C12_xff_ends_with_peer.
+
+(* the request line names the client's method and HTTP/1.1 *)
+Theorem C12_head_shape : forall m routed raw h peer,
+  upstream_head m routed raw h peer =
+  method_token m ++ [SP] ++ upstream_target routed raw ++ B " HTTP/1.1" ++ CRLF ++
+  concat (map (fun kv => fst kv ++ B ": " ++ snd kv ++ CRLF) (upstream_headers h peer)) ++ CRLF.
+Proof. reflexivity. Qed.
+Print Assumptions C12_head_shape.
